@@ -538,24 +538,74 @@ def rule_chunk_loops(ctx, rd):
                   'nothing that can raise lies between the snapshot and the parse',
                   'statements between snapshot and parse: ' + ', '.join(norm(b) for b in between), loc=ctx.loc(f, pstmt))
         n += 1
-        # REFILL: raw = raw[cur:] + <read>; deserializer rebuilt from raw afterwards in the same iteration
-        drops = []
-        for s in cl['outer'].body:
-            if isinstance(s, ast.Assign) and isinstance(s.targets[0], ast.Name) and isinstance(s.value, ast.BinOp) \
-                    and isinstance(s.value.op, ast.Add) and isinstance(s.value.left, ast.Subscript) \
-                    and norm(s.value.left.value) == s.targets[0].id:
-                drops.append(s)
-        if len(drops) != 1:
-            raise AnalysisError(f'{f.key}: refill statement `raw = raw[cursor:] + ...` not found')
-        drop = drops[0]
-        sl = drop.value.left.slice
-        good = isinstance(sl, ast.Slice) and norm(sl.lower) == cur and sl.upper is None and sl.step is None
-        reads = isinstance(drop.value.right, ast.Call) and q.callee_name(ctx, f, drop.value.right) in ('self._read',)
+        # REFILL: raw = raw[cur:] + <read of a full chunk>, possibly spelt over several statements; deserializer rebuilt afterwards
+        import copy
+        rb = [s for s in cl['outer'].body if isinstance(s, ast.Assign) and norm(s.targets[0]) == cl['deser']
+              and isinstance(s.value, ast.Call) and norm(s.value.func) == 'Deserializer' and len(s.value.args) == 1
+              and isinstance(s.value.args[0], ast.Name)]
+        if len(rb) != 1:
+            raise AnalysisError(f'{f.key}: `{cl["deser"]} = Deserializer(<buffer>)` rebuild not found in the refill loop')
+        rawv0 = rb[0].value.args[0].id
+        writes = [s for s in cl['outer'].body if s.lineno > t.lineno and s.lineno < rb[0].lineno and (
+            (isinstance(s, ast.Assign) and len(s.targets) == 1 and norm(s.targets[0]) == rawv0) or
+            (isinstance(s, ast.AugAssign) and norm(s.target) == rawv0))]
+        if not writes:
+            raise AnalysisError(f'{f.key}: no refill of `{rawv0}` between the parse loop and the deserializer rebuild')
+
+        class Sub(ast.NodeTransformer):
+            def __init__(self, e):
+                self.e = e
+
+            def visit_Name(self, nd):
+                if nd.id == rawv0 and isinstance(nd.ctx, ast.Load) and self.e is not None:
+                    return copy.deepcopy(self.e)
+                return nd
+        expr = None
+        for w in writes:
+            if isinstance(w, ast.Assign):
+                expr = Sub(expr).visit(copy.deepcopy(w.value))
+            else:
+                left = copy.deepcopy(expr) if expr is not None else ast.Name(id=rawv0, ctx=ast.Load())
+                # the size argument of the read may mention the buffer being built: leave it symbolic
+                expr = ast.BinOp(left=left, op=w.op, right=copy.deepcopy(w.value))
+        drop = writes[0]
+        good = reads = False
+        size_ok, size_txt = False, '?'
+        if isinstance(expr, ast.BinOp) and isinstance(expr.op, ast.Add) and isinstance(expr.left, ast.Subscript) \
+                and norm(expr.left.value) == rawv0:
+            sl = expr.left.slice
+            good = isinstance(sl, ast.Slice) and sl.lower is not None and norm(sl.lower) == cur and sl.upper is None and sl.step is None
+            rc = expr.right
+            reads = isinstance(rc, ast.Call) and q.callee_name(ctx, f, rc) in ('self._read',) and len(rc.args) == 1
+            if reads:
+                size_txt = norm(rc.args[0])
+                try:
+                    lin = q.linear(ctx, f, rc.args[0])
+                    size_ok = set(k for k, v in lin.items() if v and k) == {'self.chunk_size'} and lin['self.chunk_size'] >= 1 \
+                        and lin.get('', 0) >= 0
+                except q.NotLinear:
+                    size_ok = False
         ctx.check(good and reads, 'C13.REFILL', ctx.key(f, drop),
-                  f'refill keeps exactly the unparsed tail raw[{cur}:] and appends the next chunk',
-                  f'refill does not keep exactly raw[{cur}:] + next chunk: {norm(drop)}', loc=ctx.loc(f, drop))
+                  f'refill keeps exactly the unparsed tail {rawv0}[{cur}:] and appends the next chunk',
+                  f'refill does not keep exactly {rawv0}[{cur}:] + next chunk: {norm(expr)[:90] if expr is not None else "?"}', loc=ctx.loc(f, drop))
         n += 1
-        rawv = drop.targets[0].id
+        ctx.check(size_ok, 'C13.REFILL', ctx.key(f, drop, 'reads a full chunk'),
+                  'every refill reads (at least) a whole chunk, independent of how much is buffered',
+                  f'the refill reads `{size_txt}` bytes: when the unparsed tail already fills that budget (a transaction larger than a '
+                  'chunk) nothing more is read and the transaction never completes', loc=ctx.loc(f, drop))
+        n += 1
+        # the snapshot that the refill slices with is the start of the first UNPARSED transaction: after a successful parse
+        # the snapshot is re-taken before the refill can be reached (the inner loop must not end normally)
+        pn = cfg.node(pstmt)
+        after_ok = [m for m in cfg.g.successors(pn) if not ({'exc'} >= set(cfg.g[pn][m]['kinds']))]
+        pth = pr.path_avoiding(cfg, after_ok, [cfg.node(drop)], {cfg.node(snap)})
+        ctx.check(pth is None, 'C13.SNAPSHOT', ctx.key(f, snap, 'fresh at the refill'),
+                  'after a successful parse the snapshot is re-taken before the refill: the refill always cuts at the first unparsed byte',
+                  'the refill can be reached after a successful parse without re-taking the cursor snapshot (the inner loop can end '
+                  'normally): the buffer is cut at the start of the transaction just yielded, which is then parsed and yielded again',
+                  witness=cfg.describe_path(pth) if pth else None, loc=ctx.loc(f, snap))
+        n += 1
+        rawv = rawv0
         rebuilds = [s for s in cl['outer'].body if isinstance(s, ast.Assign) and norm(s.targets[0]) == cl['deser']
                     and isinstance(s.value, ast.Call) and norm(s.value.func) == 'Deserializer'
                     and [norm(a) for a in s.value.args] == [rawv] and not s.value.keywords]
